@@ -79,6 +79,15 @@ FRAGMENTS = [
     "y = torch.zeros(3, 3)\ny[[0, 2], [1, 0]] = torch.tensor([5.0, 7.0])\nr = y",
     "y = torch.zeros(2, 3)\ny[:, [0, 2]] = t[0, :2]\nr = y",
     "y = t.clone()\ny[0:2, [1]] = 4\nr = y",
+    "a = t\nb = a\nb[0] = 9\nr = a",
+    "a = t.clone()\nv = a[0]\na[0, 0] = 5\nr = v",
+    "a = t.clone()\nv = a[0]\nv[1] = 7\nr = a",
+    "a = t.clone()\nv = a[0]\na[1] = 0\nv = a[0]\nr = v + a[1]",
+    "a = t.clone()\nw = a.reshape(-1)\nw[2] = 4\nr = a",
+    "a = t.clone()\nw = a.T\na[0, 1] = 3\nr = w",
+    "a = t.clone()\nb = a.clone()\nb[0] = 1\nr = a + b",
+    "rows = []\nfor i in range(2):\n    m = t[i].unsqueeze(0)\n    rows.append(m.squeeze(0) * 2)\nr = torch.stack(rows)",
+    "a = torch.zeros(2, 3)\nfor i in range(2):\n    for j in range(3):\n        a[i, j] = t[i, j]\n    row = a[i].unsqueeze(0)\nr = a + row",
     "r = t[::2, 1]",
     "r = t[:, ::2]",
     "r = t[1:, 1::2]",
